@@ -8,7 +8,7 @@ from fractions import Fraction as F
 import numpy as np
 
 from rv.core import ctx as _ctx
-from rv.core import instrument
+from rv.core import instrument, scribble
 from rv.core.tolerances import RANGE_STEP_TOL
 
 ANCHORS = ("arrays/dimensions.py", "arrays/operations.py")
@@ -181,15 +181,22 @@ def judge_range(ctx, start, stop, step, size, via):
     from soundevent.arrays import dimensions as D
 
     spec = {"kind": "range", "start": start, "stop": stop, "step": step, "size": size, "via": via}
-    try:
+    def call():
         if via == "range":
-            D.create_range_dim("x", start, stop, step=step, size=size)
+            return D.create_range_dim("x", start, stop, step=step, size=size)
         elif via == "time":
-            D.create_time_range(start, stop, step=step)
+            return D.create_time_range(start, stop, step=step)
         elif via == "time_sr":
-            D.create_time_range(start, stop, samplerate=round(1 / step))
-        else:
-            D.create_frequency_range(start, stop, step)
+            return D.create_time_range(start, stop, samplerate=round(1 / step))
+        return D.create_frequency_range(start, stop, step)
+
+    try:
+        r1 = call()
+        if ctx.every(spec, 3) and scribble.scribble(r1):
+            # the caller shifts / overwrites the coordinate it was given (``time += clip_start``), then asks for the
+            # same range again: the second answer is judged by the same monitor
+            ctx.mon("repeat_after_result_edit")
+            call()
     except Exception as e:
         q = (F(stop) - F(start)) / F(step if step else 1)
         key = "range:raises"
